@@ -136,6 +136,12 @@ def const_dead_edges(body):
         if p is None or p["proj"]:
             continue
         df = single_def(body, p["l"])
+        if df is not None and df["kind"] == "assign" and df["rv"]["k"] == "use":
+            # a copy of a literal (the parameter of an inlined helper that was handed `Mode::X`)
+            from . import flow as _flow
+            rva = _flow.resolve_agg(body, {"p": {"l": p["l"], "proj": []}})
+            if rva is not None and rva.get("variant"):
+                df = {"kind": "assign", "rv": rva}
         if df is None or df["kind"] != "assign" or df["rv"]["k"] != "agg" or df["rv"].get("agg") != "adt" or not df["rv"].get("variant"):
             continue
         if any(d["kind"] == "mutarg" for d in body.defs().get(p["l"], [])):
